@@ -1,9 +1,10 @@
 #!/usr/bin/env python3
-"""usage: keep_mutant.py <Cxx> <src dir> <caught:yes|no|after-strengthening> "<which signatures / note>"
-Copies a verified seeded change into /verif/seeded/<Cxx>/ and records what was run."""
+"""usage: keep_mutant.py <Cxx> <src dir> <caught:yes|no|after-strengthening> "<which signatures / note>" [<dir name, e.g. C02b>]
+Copies a verified seeded change into /verif/seeded/<Cxx>/ (or the given dir name: a second change for the same property)
+and records what was run."""
 import json, os, shutil, sys, glob, subprocess
 pid, src, caught, note = sys.argv[1:5]
-dst = f"/verif/seeded/{pid}"
+dst = f"/verif/seeded/{sys.argv[5] if len(sys.argv) > 5 else pid}"
 os.makedirs(dst, exist_ok=True)
 shutil.copy(os.path.join(src, "patch.diff"), dst)
 for f in glob.glob(os.path.join(src, "demo*.py")):
@@ -15,7 +16,7 @@ if os.path.exists(mp):
         meta = json.load(open(mp))
     except Exception:
         meta = {"raw": open(mp).read()[:2000]}
-meta.setdefault("property", pid)
+meta["property"] = pid
 log = f"/tmp/mutv/{pid}.check.log"
 demo = f"/tmp/mutv/{pid}.demo.log"
 meta["verified_by_me"] = {
